@@ -76,80 +76,13 @@ func c15model(c *Ctx, ruleCount, ruleType, ruleShape string) {
 	}
 	m.it.maxDepth = 48
 	b := &simBuilder{m: m, c: c, mpT: c.P.NamedType("geom", "MultiPoint"), gcT: c.P.NamedType("geom", "GeometryCollection"), ring: m.polyT.Underlying().(*types.Slice).Elem()}
-	pkg := c.P.Pkg("geom")
-	// the comparison stub: lowest-level tolerance test present in the package
-	var scalarCmp, pointCmp *types.Func
-	if ts := c15toleranceTests(c); len(ts) > 0 {
-		scalarCmp = ts[0]
-	}
-	if scalarCmp == nil {
-		for _, fn := range c.P.RepoFuncs() {
-			if c.P.DeclPkg(fn) != pkg {
-				continue
-			}
-			sig := fn.Type().(*types.Signature)
-			if sig.Recv() != nil || sig.Params().Len() != 3 || sig.Results().Len() != 1 {
-				continue
-			}
-			if rb, ok := sig.Results().At(0).Type().Underlying().(*types.Basic); !ok || rb.Kind() != types.Bool {
-				continue
-			}
-			p0, p1, p2 := sig.Params().At(0).Type(), sig.Params().At(1).Type(), sig.Params().At(2).Type()
-			// a point-level test, confirmed by behaviour: |a − b| < e on both coordinates
-			if types.Identical(p0, m.ptT) && types.Identical(p1, m.ptT) && isFloat64(p2) && pointCmp == nil && c15isToleranceTest(c, fn, m.ptT) {
-				pointCmp = fn
-			}
-		}
-	}
-	near := func(a, bb oval) (bool, bool) {
-		x, ok1 := a.(oFloat)
-		y, ok2 := bb.(oFloat)
-		if !ok1 || !ok2 {
-			return false, false
-		}
-		if x.r >= oInf || x.r <= -oInf || y.r >= oInf || y.r <= -oInf {
-			return false, true // |±Inf − anything| is Inf or NaN: never below a tolerance
-		}
-		d := x.r - y.r
-		return d > -2 && d < 2, true
-	}
-	stubName := ""
-	switch {
-	case scalarCmp != nil:
-		stubName = c.P.FuncName(scalarCmp)
-		m.it.stub = func(f *types.Func, recv oval, args []oval) ([]oval, bool) {
-			if f != scalarCmp {
-				return nil, false
-			}
-			r, ok := near(args[0], args[1])
-			if !ok {
-				return []oval{oTop{"tolerance test on non-coordinates"}}, true
-			}
-			return []oval{oBool(r)}, true
-		}
-	case pointCmp != nil:
-		stubName = c.P.FuncName(pointCmp)
-		m.it.stub = func(f *types.Func, recv oval, args []oval) ([]oval, bool) {
-			if f != pointCmp {
-				return nil, false
-			}
-			p, ok1 := args[0].(*oStruct)
-			q, ok2 := args[1].(*oStruct)
-			if !ok1 || !ok2 {
-				return []oval{oTop{"tolerance test on non-points"}}, true
-			}
-			rx, okx := near(p.fields["X"], q.fields["X"])
-			ry, oky := near(p.fields["Y"], q.fields["Y"])
-			if !okx || !oky {
-				return []oval{oTop{"tolerance test on non-coordinates"}}, true
-			}
-			return []oval{oBool(rx && ry)}, true
-		}
-	default:
-		c.Unk(ruleShape, "geom#tolerance-test", token.NoPos, "no (float64, float64, float64) bool or (Point, Point, float64) bool helper found to give the tolerance test its model meaning")
-		return
-	}
-	tol := oFloat{1}
+	// coordinates are symbols valued at their rank (vertex k sits at (16k, 16k+2), a perturbed copy
+	// one unit further, a displaced one eight), the tolerance a symbol valued 1.5: the package's own
+	// tolerance arithmetic decides "near", whatever helper it is written in
+	m.it.symbolic = true
+	m.it.valuation = map[string]float64{"__ranks": 1, "tol": 1.5}
+	stubName := "the package's own tolerance arithmetic at tolerance 1.5"
+	tol := oSym{polyVar("tol")}
 	type pairCase struct {
 		what string
 		g, h simGeom
@@ -391,58 +324,4 @@ func c15model(c *Ctx, ruleCount, ruleType, ruleShape string) {
 	default:
 		c.OK(ruleType, "geom#Similar-across-types", token.NoPos, "false for all %d ordered pairs of different types", tv.n)
 	}
-}
-
-// c15isToleranceTest evaluates a candidate helper on symbolic arguments under a handful of
-// valuations and accepts it when its answers are those of |a − b| < e (per coordinate for points).
-func c15isToleranceTest(c *Ctx, fn *types.Func, ptT types.Type) bool {
-	if c.P.Decl(fn) == nil {
-		return false
-	}
-	type tc struct {
-		a, b, e float64
-		want    bool
-	}
-	for _, t := range []tc{{1, 1.5, 1, true}, {1.5, 1, 1, true}, {1, 3, 1, false}, {3, 1, 1, false}, {-2, -2.25, 0.5, true}, {-2, 2, 0.5, false}, {10, 10, 0.001, true}} {
-		symResetEval()
-		it := &oInterp{p: c.P, maxDepth: 16, symbolic: true}
-		it.valuation = map[string]float64{"ta": t.a, "tb": t.b, "te": t.e, "tc": 7}
-		var args []oval
-		if ptT == nil {
-			args = []oval{oSym{polyVar("ta")}, oSym{polyVar("tb")}, oSym{polyVar("te")}}
-		} else {
-			// the X coordinates differ as given, the Y coordinates agree — and the other way round
-			mk := func(x, y string) oval {
-				st := it.zero(ptT).(*oStruct)
-				st.fields["X"], st.fields["Y"] = oSym{polyVar(x)}, oSym{polyVar(y)}
-				return st
-			}
-			for _, sw := range []bool{false, true} {
-				var p, q oval
-				if sw {
-					p, q = mk("tc", "ta"), mk("tc", "tb")
-				} else {
-					p, q = mk("ta", "tc"), mk("tb", "tc")
-				}
-				c.Evals(1)
-				res, why := it.Call(fn, nil, []oval{p, q, oSym{polyVar("te")}}, 0)
-				if why != "" || len(res) != 1 {
-					return false
-				}
-				if b, ok := res[0].(oBool); !ok || bool(b) != t.want {
-					return false
-				}
-			}
-			continue
-		}
-		c.Evals(1)
-		res, why := it.Call(fn, nil, args, 0)
-		if why != "" || len(res) != 1 {
-			return false
-		}
-		if b, ok := res[0].(oBool); !ok || bool(b) != t.want {
-			return false
-		}
-	}
-	return true
 }
